@@ -66,6 +66,9 @@ const GRACES: &[u32] = &[0, 1, 2, 6, 42];
 
 impl Case {
     pub fn new(seed: u64, id: u64, bias: &str, dir: &PathBuf) -> Case {
+        if let Some(kind) = bias.strip_prefix("script:") {
+            return scripted_case(seed, id, kind, dir);
+        }
         Case::new_cfg(seed, id, bias, dir, None)
     }
 
@@ -934,6 +937,130 @@ impl Case {
     }
 }
 
+
+/// Directed histories for transitions the random generator reaches rarely: a breach mined in the very
+/// block that purges its owner, an appointment arriving for a dispute that sits at the edge of the
+/// six-block window (with a restart in between: the window is rebuilt by the bootstrap), blocks mined
+/// while the tower is down (backlog delivered by the bootstrap's own poll), a restart before the first
+/// block was ever processed. They run under the same model and monitors as generated histories.
+pub const SCRIPT_KINDS: &[&str] = &["purge-block-dispute", "late-appointment", "backlog-at-bootstrap", "fresh-restart-backlog"];
+
+pub fn scripted_case(seed: u64, id: u64, kind: &str, dir: &PathBuf) -> Case {
+    use crate::world::SigKind;
+    let mut rng = Rng::stream(seed, id, 0x5C);
+    let grace = *rng.pick(&[0u32, 1, 2]);
+    let duration = if kind == "purge-block-dispute" { 2 + rng.below(5) as u32 } else { *rng.pick(&[20u32, 150, 500]) };
+    let bias = format!("script:{kind}");
+    let mut case = Case::new_cfg(seed, id, &bias, dir, Some((*rng.pick(&[21u32, 1000]), duration, grace)));
+    let mut ops: Vec<Op> = Vec::new();
+    let n_users = case.world.users.len().min(2);
+    let add = |case: &mut Case, rng: &mut Rng, ops: &mut Vec<Op>, chan: usize, user: usize| {
+        let target = 100 + rng.usize(300);
+        let ver = case.world.new_version(rng, chan, BlobKind::Valid, target);
+        let msg = case.world.versions[ver].msg(&case.world.chans);
+        let sig = case.world.sign(rng, Signer::User(user), &msg, SigKind::Good);
+        ops.push(Op::Add { signer: Signer::User(user), ver, sig, good: true });
+    };
+    let get = |case: &mut Case, rng: &mut Rng, ops: &mut Vec<Op>, chan: usize, user: usize| {
+        let msg = format!("get appointment {}", hex::encode(&case.world.chans[chan].locator));
+        let sig = case.world.sign(rng, Signer::User(user), msg.as_bytes(), SigKind::Good);
+        ops.push(Op::GetAppt { signer: Signer::User(user), chan, sig, good: true });
+    };
+    match kind {
+        "purge-block-dispute" => {
+            ops.push(Op::Register { user: 0 });
+            if n_users > 1 && rng.chance(1, 2) {
+                ops.push(Op::Register { user: 1 });
+            }
+            for c in 0..4 {
+                add(&mut case, &mut rng, &mut ops, c, 0);
+            }
+            if rng.chance(1, 2) {
+                ops.push(Op::Restart);
+            }
+            // one breach per block around the purge height (expiry + grace)
+            let around = (duration + grace) as i64;
+            for off in 1..=(around + 3) {
+                let chan = match off - around {
+                    -1 => Some(0),
+                    0 => Some(1),
+                    1 => Some(2),
+                    2 => Some(3),
+                    _ => None,
+                };
+                ops.push(Op::Mine { blocks: vec![chan.map(|c| vec![TxRef::Dispute(c)]).unwrap_or_default()] });
+                ops.push(Op::Poll);
+            }
+            for c in 0..4 {
+                get(&mut case, &mut rng, &mut ops, c, 0);
+            }
+        }
+        "late-appointment" => {
+            ops.push(Op::Register { user: 0 });
+            ops.push(Op::Mine { blocks: vec![vec![TxRef::Dispute(0)]] });
+            ops.push(Op::Poll);
+            let k = rng.usize(8);
+            if k > 0 {
+                if rng.chance(1, 2) {
+                    ops.push(Op::Mine { blocks: (0..k).map(|_| vec![]).collect() });
+                    ops.push(Op::Poll);
+                } else {
+                    for _ in 0..k {
+                        ops.push(Op::Mine { blocks: vec![vec![]] });
+                        ops.push(Op::Poll);
+                    }
+                }
+            }
+            if rng.chance(2, 3) {
+                ops.push(Op::Restart);
+            }
+            add(&mut case, &mut rng, &mut ops, 0, 0);
+            get(&mut case, &mut rng, &mut ops, 0, 0);
+            ops.push(Op::Mine { blocks: vec![vec![]] });
+            ops.push(Op::Poll);
+            get(&mut case, &mut rng, &mut ops, 0, 0);
+        }
+        "backlog-at-bootstrap" => {
+            ops.push(Op::Register { user: 0 });
+            add(&mut case, &mut rng, &mut ops, 0, 0);
+            add(&mut case, &mut rng, &mut ops, 1, 0);
+            add(&mut case, &mut rng, &mut ops, 2, 0);
+            ops.push(Op::Mine { blocks: vec![vec![]] });
+            ops.push(Op::Poll);
+            // mined while the tower is not looking, then the tower goes down and comes back
+            ops.push(Op::Mine { blocks: vec![vec![TxRef::Dispute(0)]] });
+            let k = rng.usize(9);
+            ops.push(Op::Mine { blocks: (0..k).map(|_| vec![]).chain(std::iter::once(vec![TxRef::Dispute(1)])).collect() });
+            ops.push(Op::Restart);
+            get(&mut case, &mut rng, &mut ops, 0, 0);
+            get(&mut case, &mut rng, &mut ops, 1, 0);
+            get(&mut case, &mut rng, &mut ops, 2, 0);
+            ops.push(Op::Mine { blocks: vec![vec![TxRef::Dispute(2)]] });
+            ops.push(Op::Poll);
+            get(&mut case, &mut rng, &mut ops, 2, 0);
+        }
+        _ => {
+            // fresh-restart-backlog: the tower never processed a block before it goes down
+            ops.push(Op::Register { user: 0 });
+            add(&mut case, &mut rng, &mut ops, 0, 0);
+            if rng.chance(1, 2) {
+                add(&mut case, &mut rng, &mut ops, 1, 0);
+            }
+            let k = rng.usize(4);
+            ops.push(Op::Mine { blocks: std::iter::once(vec![TxRef::Dispute(0)]).chain((0..k).map(|_| vec![])).collect() });
+            ops.push(Op::Restart);
+            get(&mut case, &mut rng, &mut ops, 0, 0);
+            ops.push(Op::Mine { blocks: vec![vec![]] });
+            ops.push(Op::Poll);
+            get(&mut case, &mut rng, &mut ops, 0, 0);
+        }
+    }
+    case.max_steps = ops.len();
+    case.ops = ops.clone();
+    case.script = Some(ops);
+    case
+}
+
 /// Runs one case to completion (restarts included). Panics of tower code are caught and reported.
 pub fn run_case(case: &mut Case) {
     let chain = {
@@ -975,116 +1102,126 @@ pub fn run_case(case: &mut Case) {
     let _ = std::fs::remove_file(&case.cfg.db_path);
 }
 
+
+/// Books one finished case into the report: evaluations, per-property non-triviality, the model's
+/// counters, violations with their replay document, samples. Shared by `e1` and `e3`.
+pub fn report_case(rep: &mut Report, case: &Case, id: u64, seed: u64, engine: &str) {
+    let props = ["C01", "C02", "C04", "C06", "C07", "C08", "C09", "C11"];
+    let h = fnv(format!("{:?}", case.ops).as_bytes());
+    let c = case.model.c.clone();
+    let nontrivial: BTreeMap<&str, bool> = BTreeMap::from([
+        ("C01", c.obligations > 0),
+        ("C02", c.sends_seen > 0),
+        ("C04", c.reannounce_checked + c.completions + c.rebroadcast_windows_checked + c.confirmed_rows_checked > 0),
+        ("C06", c.auth_rejections > 0 && c.isolation_checks > 0),
+        ("C07", c.ledger_checks > 0 && c.receipts_verified > 1),
+        ("C08", c.receipts_verified > 0),
+        ("C09", c.expiry_errors + c.purges + c.renewals > 0),
+        ("C11", !c.resubmissions.is_empty()),
+    ]);
+    for p in props {
+        let r = rep.p(p);
+        r.eval();
+        if nontrivial[p] {
+            r.nontrivial(h);
+        }
+        if case.tolerated_divergence {
+            r.count("cases_stopped_at_unspecified_state", 1);
+        }
+        r.count("steps", case.steps as u64);
+        r.count("restarts", case.restarts);
+    }
+    {
+        let r = rep.p("C01");
+        r.count("obligations", c.obligations);
+        r.count("discharged_responded", c.discharged_responded);
+        r.count("discharged_dropped_invalid", c.discharged_dropped_invalid);
+        r.count("discharged_dropped_rejected", c.discharged_dropped_rejected);
+        r.count("tolerated_already_in_chain", c.tolerant_27);
+        r.count("blocks_connected", c.blocks_connected);
+        for (k, v) in &c.blob_kinds {
+            r.count(&format!("blob[{k}]"), *v);
+        }
+        for (k, v) in &c.verdicts {
+            r.count(&format!("verdict[{k}]"), *v);
+        }
+    }
+    {
+        let r = rep.p("C02");
+        r.count("broadcasts_seen", c.sends_seen);
+        r.count("broadcasts_justified", c.rpcs_justified);
+    }
+    {
+        let r = rep.p("C04");
+        r.count("reannouncements_checked", c.reannounce_checked);
+        r.count("unconfirmed_tracker_blocks_checked", c.rebroadcast_windows_checked);
+        r.count("confirmed_rows_checked", c.confirmed_rows_checked);
+        r.count("completions_at_100", c.completions);
+        r.count("blocks_connected", c.blocks_connected);
+        r.count("blocks_disconnected", c.blocks_disconnected);
+        r.max("max_reorg_depth", c.max_reorg_depth);
+    }
+    {
+        let r = rep.p("C06");
+        r.count("requests_rejected_for_authentication", c.auth_rejections);
+        r.count("isolation_checks", c.isolation_checks);
+    }
+    {
+        let r = rep.p("C07");
+        r.count("ledger_checks", c.ledger_checks);
+        r.count("completions_refunded", c.completions);
+    }
+    {
+        let r = rep.p("C08");
+        r.count("receipts_verified", c.receipts_verified);
+        r.count("readbacks_compared", c.readbacks);
+    }
+    {
+        let r = rep.p("C09");
+        r.count("expiry_errors_checked", c.expiry_errors);
+        r.count("purges", c.purges);
+        r.count("renewals", c.renewals);
+    }
+    {
+        let r = rep.p("C11");
+        for (k, v) in &c.resubmissions {
+            r.count(&format!("submission_in_state[{k}]"), *v);
+        }
+    }
+    let replay = case.replay_json(engine, seed);
+    for v in &case.viols {
+        for p in &v.props {
+            if *p == "HARNESS" {
+                rep.p("C01").inconclusive += 1;
+                rep.p("C01").note(format!("harness error in case {id}: {}", v.detail));
+                eprintln!("HARNESS ERROR case {id}: {}", v.detail);
+                continue;
+            }
+            rep.p(p).violation(v.sig.clone(), format!("{engine} case {id}: {}", v.detail), replay.clone());
+        }
+    }
+    for p in props {
+        let ops_sample: Vec<String> = case.ops.iter().take(40).map(|o| format!("{o:?}").chars().take(160).collect()).collect();
+        rep.p(p).sample(|| json!({"case": id, "config": {"slots": case.cfg.slots, "duration": case.cfg.duration, "grace": case.cfg.grace}, "steps": case.steps, "first_ops": ops_sample}));
+    }
+}
+
 /// Entry point of the `e1` engine.
 pub fn run(seed: u64, shard: u64, nshards: u64, cases: u64, bias: &str, only_case: Option<u64>, rep: &mut Report) {
     panics::install();
     let dir = PathBuf::from(format!("/dev/shm/tv-e1-{}", std::process::id()));
     std::fs::create_dir_all(&dir).unwrap();
-    let props = ["C01", "C02", "C04", "C06", "C07", "C08", "C09", "C11"];
     let ids: Vec<u64> = match only_case {
         Some(c) => vec![c],
         None => (0..cases).map(|i| shard + i * nshards).collect(),
     };
     for id in ids {
-        let mut case = Case::new(seed, id, bias, &dir);
+        // one history in sixteen is a directed one (see `scripted_case`); replays carry the bias string
+        let scripted = only_case.is_none() && !bias.starts_with("script:") && id % 16 == 5;
+        let b = if scripted { format!("script:{}", SCRIPT_KINDS[((id / 16) % SCRIPT_KINDS.len() as u64) as usize]) } else { bias.to_string() };
+        let mut case = Case::new(seed, id, &b, &dir);
         run_case(&mut case);
-        let h = fnv(format!("{:?}", case.ops).as_bytes());
-        let c = case.model.c.clone();
-        let nontrivial: BTreeMap<&str, bool> = BTreeMap::from([
-            ("C01", c.obligations > 0),
-            ("C02", c.sends_seen > 0),
-            ("C04", c.reannounce_checked + c.completions + c.rebroadcast_windows_checked + c.confirmed_rows_checked > 0),
-            ("C06", c.auth_rejections > 0 && c.isolation_checks > 0),
-            ("C07", c.ledger_checks > 0 && c.receipts_verified > 1),
-            ("C08", c.receipts_verified > 0),
-            ("C09", c.expiry_errors + c.purges + c.renewals > 0),
-            ("C11", !c.resubmissions.is_empty()),
-        ]);
-        for p in props {
-            let r = rep.p(p);
-            r.eval();
-            if nontrivial[p] {
-                r.nontrivial(h);
-            }
-            if case.tolerated_divergence {
-                r.count("cases_stopped_at_unspecified_state", 1);
-            }
-            r.count("steps", case.steps as u64);
-            r.count("restarts", case.restarts);
-        }
-        {
-            let r = rep.p("C01");
-            r.count("obligations", c.obligations);
-            r.count("discharged_responded", c.discharged_responded);
-            r.count("discharged_dropped_invalid", c.discharged_dropped_invalid);
-            r.count("discharged_dropped_rejected", c.discharged_dropped_rejected);
-            r.count("tolerated_already_in_chain", c.tolerant_27);
-            r.count("blocks_connected", c.blocks_connected);
-            for (k, v) in &c.blob_kinds {
-                r.count(&format!("blob[{k}]"), *v);
-            }
-            for (k, v) in &c.verdicts {
-                r.count(&format!("verdict[{k}]"), *v);
-            }
-        }
-        {
-            let r = rep.p("C02");
-            r.count("broadcasts_seen", c.sends_seen);
-            r.count("broadcasts_justified", c.rpcs_justified);
-        }
-        {
-            let r = rep.p("C04");
-            r.count("reannouncements_checked", c.reannounce_checked);
-            r.count("unconfirmed_tracker_blocks_checked", c.rebroadcast_windows_checked);
-            r.count("confirmed_rows_checked", c.confirmed_rows_checked);
-            r.count("completions_at_100", c.completions);
-            r.count("blocks_connected", c.blocks_connected);
-            r.count("blocks_disconnected", c.blocks_disconnected);
-            r.max("max_reorg_depth", c.max_reorg_depth);
-        }
-        {
-            let r = rep.p("C06");
-            r.count("requests_rejected_for_authentication", c.auth_rejections);
-            r.count("isolation_checks", c.isolation_checks);
-        }
-        {
-            let r = rep.p("C07");
-            r.count("ledger_checks", c.ledger_checks);
-            r.count("completions_refunded", c.completions);
-        }
-        {
-            let r = rep.p("C08");
-            r.count("receipts_verified", c.receipts_verified);
-            r.count("readbacks_compared", c.readbacks);
-        }
-        {
-            let r = rep.p("C09");
-            r.count("expiry_errors_checked", c.expiry_errors);
-            r.count("purges", c.purges);
-            r.count("renewals", c.renewals);
-        }
-        {
-            let r = rep.p("C11");
-            for (k, v) in &c.resubmissions {
-                r.count(&format!("submission_in_state[{k}]"), *v);
-            }
-        }
-        let replay = case.replay_json("e1", seed);
-        for v in &case.viols {
-            for p in &v.props {
-                if *p == "HARNESS" {
-                    rep.p("C01").inconclusive += 1;
-                    rep.p("C01").note(format!("harness error in case {id}: {}", v.detail));
-                    eprintln!("HARNESS ERROR case {id}: {}", v.detail);
-                    continue;
-                }
-                rep.p(p).violation(v.sig.clone(), format!("case {id}: {}", v.detail), replay.clone());
-            }
-        }
-        for p in props {
-            let ops_sample: Vec<String> = case.ops.iter().take(40).map(|o| format!("{o:?}").chars().take(160).collect()).collect();
-            rep.p(p).sample(|| json!({"case": id, "config": {"slots": case.cfg.slots, "duration": case.cfg.duration, "grace": case.cfg.grace}, "steps": case.steps, "first_ops": ops_sample}));
-        }
+        report_case(rep, &case, id, seed, "e1");
     }
     std::fs::remove_dir_all(&dir).ok();
 }
